@@ -57,7 +57,8 @@ def op_strategy(counts=False):
                                              "style": sty, "strict": s_,
                                              "inplace": ip, "mask": m},
                   AX, st.sampled_from(["lengthen", "shorten", "suffix",
-                                       "swap"]),
+                                       "swap", "lengthen", "shorten",
+                                       "suffix", "swap", "collide"]),
                   st.booleans(), st.booleans(), MASK),
         st.builds(lambda a, m, k: {"op": "add_metadata", "axis": a, "mask": m,
                                    "key": k, "unknown": True},
@@ -371,6 +372,19 @@ def apply(t, op):
         if not op["strict"] and sty != "swap":
             mk = hops.mask_for(len(ids), op["mask"])
             mp = {i: v for (i, v), k in zip(list(mp.items()), mk) if k}
+        if sty == "collide":
+            # every ID renamed to the same name: refused, whatever the table
+            # holds (an accepted one would show duplicate IDs downstream)
+            from biom.exception import TableException
+            mp = {i: "same-name" for i in ids}
+            if len(ids) < 2:
+                return Outcome(skipped="one id cannot collide")
+            try:
+                r = t.update_ids(mp, axis=op["axis"], strict=op["strict"],
+                                 inplace=op["inplace"])
+            except TableException:
+                return Outcome(skipped="collision refused")
+            return Outcome(r, inplace=op["inplace"])
         new = [mp.get(i, i) for i in ids]
         if len(set(new)) != len(new):
             return Outcome(skipped="non-injective renaming")
